@@ -8,6 +8,7 @@ pub mod c01;
 pub mod c02;
 pub mod c03;
 pub mod c04;
+pub mod c05;
 pub mod c06;
 pub mod c07;
 pub mod c08;
@@ -19,17 +20,22 @@ pub mod c12;
 pub mod c13;
 pub mod c14;
 pub mod smt_gen;
+pub mod c15;
 pub mod c16;
 pub mod c17;
 pub mod c18;
 pub mod c19;
+pub mod c20;
+pub mod c20_exec;
 pub mod c21;
 pub mod c22;
 pub mod c23;
 pub mod c25;
+pub mod c26;
 pub mod c27;
 pub mod c28;
 pub mod ledger;
+pub mod c33;
 pub mod c35;
 pub mod c36;
 pub mod c29;
@@ -44,6 +50,7 @@ pub fn run(cfg: &Cfg) -> Option<Report> {
         "C01" => c01::run(cfg),
         "C02" => c02::run(cfg),
         "C03" => c03::run(cfg),
+        "C05" => c05::run(cfg),
         "C06" => c06::run(cfg),
         "C04" => c04::run(cfg),
         "C07" => c07::run(cfg),
@@ -54,16 +61,20 @@ pub fn run(cfg: &Cfg) -> Option<Report> {
         "C12" => c12::run(cfg),
         "C13" => c13::run(cfg),
         "C14" => c14::run(cfg),
+        "C15" => c15::run(cfg),
         "C16" => c16::run(cfg),
         "C17" => c17::run(cfg),
         "C18" => c18::run(cfg),
         "C19" => c19::run(cfg),
+        "C20" => c20::run(cfg),
         "C21" => c21::run(cfg),
         "C22" => c22::run(cfg),
         "C23" => c23::run(cfg),
         "C25" => c25::run(cfg),
+        "C26" => c26::run(cfg),
         "C27" => c27::run(cfg),
         "C28" => c28::run(cfg),
+        "C33" => c33::run(cfg),
         "C35" => c35::run(cfg),
         "C36" => c36::run(cfg),
         "C29" => c29::run(cfg),
